@@ -7,25 +7,32 @@ from .. import gen, sysdesc, wire
 from ..sysdesc import System
 from .c13 import same, first_diff, exc_name
 
-CLAIM = False
-LEVEL_TEXT = ("Theorems (Lean 4) about the executable model of System.save / System.from_file (Model/Persist.lean: document layout, "
-              "the loader's keyword mappings and defaults, the final overwrite of the registries, the version gate): every component "
-              "the constructors can build, dumped and reloaded, comes back with the same kind, stored parameters, interpolator data and "
-              "applicable limits (`reload_comp_partial`, all 11 kinds; diode Rectifier excluded: finding F14); a document whose blocks "
-              "list every component once with its parent loaded first reloads to the same components, ordered parents and registries "
-              "(`roundtrip_partial`); the version gate refuses exactly the newer N.N.N versions. The full statement is kept as "
-              "`C12_full` and refuted on concrete witnesses (diode bridge, Source named \"system\"). Model tied to the code on every run: "
-              "the saved JSON of hundreds of random systems must equal the model's document, and the reloaded system's second save and "
-              "params(limits=True) must equal the model's from_file.")
-LEVEL_NOTE = ("Partial: F14 (diode Rectifier reloads as MOSFET), F15 (top-level name \"system\"), F29-C12-LIMITS (non-applicable limits dropped) are "
-              "excluded by hypothesis and reported as KNOWN-FINDING; the BFS layout property `LayoutOK` is a hypothesis of "
-              "`roundtrip_partial` (rustworkx's traversal is a parameter), evaluated by the driver on every generated case.")
+CLAIM = True
+LEVEL_TEXT = ("Theorems (Lean 4, any linearly ordered field) about the executable model of System.save / System.from_file "
+              "(Model/Persist.lean: document layout, the loader's keyword mappings and defaults, its add_comp checks, the final "
+              "overwrite of the registries, the version gate) and the constructor model: every component a constructor can build, "
+              "dumped and run through the loader's branch for its type, comes back with the same kind, name, normalised parameters, "
+              "interpolation data, rectifier mode, stored _params and applicable limits (`reload_comp`, `reload_source`, `reload_pmux`: "
+              "all 11 kinds, diode Rectifier included since F14 was repaired); a description whose layout lists every component once "
+              "with its parent loaded first reloads to the same components under the same ordered parents with the same name, phases, "
+              "phase configurations, groups and rails (`roundtrip_partial`); the version gate refuses exactly the newer N.N.N versions. "
+              "The full statement `C12_full` is refuted on a concrete witness (`full_fails_reserved_name`: a Source named \"system\", "
+              "finding F15). Model tied to the code on every run: the saved JSON of hundreds of random systems must equal the model's "
+              "document, and the reloaded system's second save and params(limits=True) must equal the model's from_file.")
+LEVEL_NOTE = ("Partial: F15 (top-level name \"system\") is excluded by hypothesis and reported as KNOWN-FINDING, as is "
+              "F29-C12-LIMITS (non-applicable limits are not saved; the theorem speaks of applicable limits, `nonapplicable_limits_dropped` "
+              "states the loss). The layout hypothesis `LayoutOK` of `roundtrip_partial` depends on rustworkx's BFS (a parameter of the "
+              "model); its executable form is proved sound (`layout_conditions_sound`) and evaluated by the driver on every generated system.")
 MODULE = "SysLoss.Props.C12"
 THEOREMS = [
-    "SysLoss.C12.reload_comp_partial",
+    "SysLoss.C12.reload_comp",
+    "SysLoss.C12.reload_source",
+    "SysLoss.C12.reload_pmux",
     "SysLoss.C12.roundtrip_partial",
-    "SysLoss.C12.full_fails_diode",
+    "SysLoss.C12.layout_conditions_sound",
+    "SysLoss.C12.reserved_name_fails",
     "SysLoss.C12.full_fails_reserved_name",
+    "SysLoss.C12.nonapplicable_limits_dropped",
     "SysLoss.C12.version_gate_newer",
     "SysLoss.C12.version_gate_not_newer",
     "SysLoss.C12.save_version_accepted",
@@ -115,12 +122,20 @@ def resolved(desc):
     return {c["name"]: [p if p in names else owner[p] for p in c["parents"]] for c in desc["comps"]}
 
 
+def insertion_order(desc):
+    """the order in which sysdesc.build inserts the components (a `detour` build plan adds one leaf last)"""
+    det = (desc.get("_build") or {}).get("detour")
+    if not det:
+        return list(desc["comps"])
+    return [c for c in desc["comps"] if c["name"] != det["x"]] + [c for c in desc["comps"] if c["name"] == det["x"]]
+
+
 def desc_wire(desc):
     par = resolved(desc)
     return {"name": desc.get("name", "sys"),
             "comps": [{"kind": c["kind"], "name": c["name"], "args": wire.pv(c["args"]), "parents": par[c["name"]],
                        "group": c.get("group", ""), "rail": c.get("rail", ""),
-                       "pconf": (None if c.get("pconf") is None else wire.pv(c["pconf"]))} for c in desc["comps"]],
+                       "pconf": (None if c.get("pconf") is None else wire.pv(c["pconf"]))} for c in insertion_order(desc)],
             "phases": wire.pv(desc.get("phases") or {})}
 
 
@@ -322,6 +337,10 @@ def run_case(ctx, tmp, desc, tag, versions=False, dropkeys=False):
     d = first_diff(doc1, wire.unpv(m["doc"]))
     if d:
         ctx.corr(case, "save: document layout / contents", {"first_difference(impl vs model)": d})
+    ctx.stats["theorem_hypothesis_saveable:%s" % m.get("saveable")] += 1
+    if m.get("saveable") is not True:
+        ctx.corr(case, "hypothesis of roundtrip_partial (layout lists every component once, parents first) on a system built "
+                       "through the public API", {"saveable": m.get("saveable")})
     mload = "ok" if "ok" in m["load"] else m["load"]["err"]["cls"]
     if mload != impl_load:
         ctx.corr(case, "from_file: outcome class", {"impl": impl_load, "model": mload, "detail": m["load"].get("err")})
@@ -558,7 +577,7 @@ def run(ctx):
     tmp = tempfile.mkdtemp(prefix="c12-")
     try:
         known_witnesses(ctx, tmp)
-        stream(ctx, tmp, ctx.n(150, 3500), ctx.n(4, 40))
+        stream(ctx, tmp, ctx.n(350, 8000), ctx.n(6, 60))
     finally:
         shutil.rmtree(tmp, ignore_errors=True)
 
